@@ -73,6 +73,17 @@ IDIOMS = [
     {"id": "constructs", "spec": [("con_t", "type :: s_{n}\n  integer :: i\nend type s_{n}", [])],
      "procs": [("con_a", "subroutine ca_{n}(x)\n  class(*), intent(in) :: x\n  integer :: j\n  lp: do j = 1, 2\n    select type (y => x)\n    type is (s_{n})\n      if (y%i > j) exit lp\n    class default\n      cycle lp\n    end select\n  end do lp\nend subroutine ca_{n}"),
                ("con_b", "subroutine cb2_{n}()\n  integer :: j\n  lp: do j = 1, 2\n    chk: if (j > 1) then\n      exit lp\n    end if chk\n  end do lp\nend subroutine cb2_{n}")]},
+    # a procedure pointer declared with a generic interface that is named like one of its specifics
+    {"id": "procptr_generic", "spec": [("ppg_i", "interface g_{n}\n  module procedure g_{n}, g_{n}_r\nend interface g_{n}", []),
+                                       ("ppg_p", "procedure(g_{n}), pointer :: pp_{n} => null()", ["ppg_i"])],
+     "procs": [("ppg_a", "subroutine g_{n}(a)\n  integer, intent(in) :: a\nend subroutine g_{n}"),
+               ("ppg_b", "subroutine g_{n}_r(a)\n  real, intent(in) :: a\nend subroutine g_{n}_r"),
+               ("ppg_c", "subroutine cp_{n}()\n  if (associated(pp_{n})) call pp_{n}(1)\nend subroutine cp_{n}")]},
+    # procedure pointers with an abstract interface: module variable, component, dummy procedure and local pointer
+    {"id": "procptr_abstract", "spec": [("ppa_i", "abstract interface\n  function fn_{n}(a) result(r)\n    real, intent(in) :: a\n    real :: r\n  end function fn_{n}\nend interface", []),
+                                        ("ppa_p", "procedure(fn_{n}), pointer :: fp_{n} => null()", ["ppa_i"]),
+                                        ("ppa_t", "type :: hold_{n}\n  procedure(fn_{n}), pointer, nopass :: f => null()\nend type hold_{n}", ["ppa_i"])],
+     "procs": [("ppa_f", "function ap_{n}(f, v) result(r)\n  procedure(fn_{n}) :: f\n  procedure(fn_{n}), pointer :: q\n  real, intent(in) :: v\n  real :: r\n  type(hold_{n}) :: h\n  q => f\n  h%f => f\n  fp_{n} => q\n  r = f(v) + q(v) + fp_{n}(v) + h%f(v)\nend function ap_{n}")]},
 ]
 
 STEMS = ["point", "norm", "vec", "item", "cell", "node", "val"]
